@@ -404,8 +404,22 @@ example : templSrc.sections.map (fun s => (s.name, s.lines.length)) = [("main_te
 example : (match assemble templSrc true with | .ok bm => bm.cps.map (·.prog.length) | .error _ => []) = [5, 4] := by decide
 -- the parameter of `cpa` does not reach `cpb`: after 5 ticks cpa shows 7+2, cpb 9+1
 example : (templSrc.sections.map fun s => (refRun (SecCtx.of templSrc s) demoEnv 4).map fun r => r.outputs 0) = [some 9, some 10] := by decide
--- a processor without parameters cannot run a template section; one that shares a plain section with a
--- parameterised processor finds it gone (as in the tool)
+-- a processor without parameters cannot run a template section …
 example : (instantiate { demoTempl with params := [("cpa", [("start", .num 7)])] }).isNone = true := by decide
+
+/-- … but a PLAIN section may be shared by a parameterised processor (which gets its copy) and a
+    processor without parameters (which runs it as it is): the section stays -/
+def demoShared : TSource :=
+  { base := { rsize := some 8, iomode := some .sync,
+              sections := [{ name := "work", lines :=
+                [ { op := "entry", args := [.sym "top"] },
+                  { labels := ["top"], op := "inc", args := [.reg 0] },
+                  { op := "mov", args := [.out 0, .reg 0] },
+                  { op := "j", args := [.sym "top"] } ] }],
+              cps := [{ name := "m1", romcode := "work" }, { name := "zed", romcode := "work" }] },
+    params := [("m1", [("gain", .num 3)])] }
+example : ((instantiate demoShared).map fun s => (s.sections.map (·.name), s.cps.map (·.romcode))) =
+    some (["work", "work_templ_0"], ["work_templ_0", "work"]) := by decide
+example : (match (instantiate demoShared).map (assemble · true) with | some (.ok bm) => bm.cps.map (·.prog.length) | _ => []) = [3, 3] := by decide
 
 end BMV.Props.C05
